@@ -430,7 +430,15 @@ class Gen:
             hi = rng.randint(lo, n)
         lo_e, hi_e = ["num", lo], ["num", hi]
         pre = []
-        if rng.random() < 0.35:
+        if (self.tag_calls and rng.random() < 0.3) or rng.random() < 0.05:
+            # the upper bound is what a user function returns ('for i in [lo, <func>n3(1))'): a call that is made
+            # while the loop header is evaluated
+            fname = f"<func>n{hi}"
+            if fname not in self.funcs:
+                self.funcs[fname] = {"kind": "count", "args": ["a0"], "coef": [hi, 0], "nres": 1}
+            c_ = self._mkcall(fname, [["num", rng.randint(0, 3)]])
+            hi_e = c_
+        elif rng.random() < 0.35:
             # bound held in a variable
             v = rng.choice(["n", "m", "k0"])
             sc.kill(v)
